@@ -168,11 +168,13 @@ CLAIMED = {
         "consistent), the staged document is the loaded commands followed by the kept new ones in order, and without a HISTCONTROL rule "
         "nothing is dropped. lazyjson._to_json_with_size for ALL values (recursion through its own contract): the reported length is the "
         "length of the text and every child is told the absolute position at which its text really starts (loop invariants j == offset + "
-        "len(s)); json.dumps only in its ASCII mode (any other keyword fails a call precondition). Bounded stand-ins (not proved): real "
+        "len(s)); json.dumps only in its ASCII mode (any other keyword fails a call precondition). Reading: LJNode._getitem_sequence reads the table entry of "
+        "element k (negative keys from the end), raises IndexError IFF the key is outside [-len, len) and never reaches the trailing whole-sequence entry; __len__ is the table "
+        "length minus that entry. Bounded stand-ins (not proved): real "
         "writer -> UTF-8 file -> real LazyJSON on Unicode documents; real JsonHistory on every sequence of 4 (thorough 5) append/flush "
         "operations x 3 HISTCONTROL settings x 3 buffer sizes against the list of appended commands (len, every in/out-of-range index, "
         "slice, iteration).",
-   note="One genuine defect repaired (fix: ce6c11e: negative keys below -len read the on-disk offsets table from the end). Unverified: the "
+   note="Two genuine defects repaired (fix: ce6c11e: history keys below -len read the on-disk offsets table from the end; d82f7bb: LazyJSON sequence nodes returned the whole list for [-1] and [len]). Unverified: the "
         "SQLite backend, flusher/reader thread interleavings (the FIFO ticket queue is ASSUMED to make a reader run after every earlier "
         "flusher; flushers are joined in the bounded check), which index entry is stored under which key (abstracted container statements; "
         "bounded check only), termination of the writer's recursion, LazyJSON._load_index / LJNode reads (bounded only), BaseShell history "
@@ -186,13 +188,15 @@ CLAIMED = {
         "handle; otherwise the last stage is the pipeline's process and nothing is closed. PopenThread.__init__: every exception of the spawn "
         "(OSError, ValueError, any other) after a signal handler was installed runs _clean_up exactly once before it escapes; on success the "
         "handlers stay for the thread. PopenThread._clean_up / _restore_sigint / _restore_sigtstp / _restore_sigquit / _restore_sigwinch: each "
-        "saved handler goes back exactly once (main thread) and is forgotten, nothing is installed otherwise. "
+        "saved handler goes back exactly once (main thread) and is forgotten, nothing is installed otherwise. PipeChannel.close_writer / close_reader / close: an end is "
+        "forgotten and closed exactly once if it was open, never otherwise (so a recycled descriptor number is never closed by mistake); SubprocSpec.close releases all five "
+        "handles, closes every channel once in order and forgets them (idempotent). "
         "CommandPipeline._raise_subproc_error hands the terminal back exactly once before raising and not at all otherwise. Bounded stand-in "
         "(not proved): 20 command shapes x 3 repetitions in a real headless session - descriptors, children, threads, cwd, std streams and the "
         "SIGINT handler before/after.",
    note="KNOWN FINDINGS (recorded, native check): `echo hi | nonexistent` leaves the started earlier stage's pipe ends and an unreaped child; an alias in a "
         "non-last stage leaves its SIGINT handler installed; `yes | cat | head -n 1` can leave an unreaped child (timing). Unverified: terminal "
-        "ownership on a real tty, PipeChannel / safe_fdclose idempotence, proxies' _restore_sigint / _close_devnull, jobs.wait_for_active_job "
+        "ownership on a real tty, safe_fdclose's handle cache, proxies' _restore_sigint / _close_devnull, jobs.wait_for_active_job "
         "reaping, cmds_to_specs' except-BaseException close (loop abstracted in C07), reader/closer thread schedules, Windows. ASSUMED: set-up "
         "statements of PopenThread.__init__ other than the spawn do not raise once handlers are installed. Trusted: pyvc engine + models + z3/cvc5.",
    design="§3 C09"),
